@@ -107,6 +107,31 @@ def replay_state(st):
                         bad.append(("C10.max-optimum", dict(kind="smaller-than-lattice-point", **wd), gbest, mine, r))
                 if opt is not None and abs(mine - opt) > 4 * TOL * (1 + opt):
                     bad.append(("C10.max-optimum", dict(kind="lp-over-exact-strips", **wd), opt, mine, r))
+    # the two tolerances are independent keywords: unequal pairs, each residual judged against its OWN delta
+    for r in sorted(st["recs"], key=lambda r: r["Bs"])[:6]:
+        B = np.asarray(r["Bs"], float) / S
+        for dn, dr in ((1e-6, 1e-3), (1e-3, 1e-6)):
+            wd = dict(objective="unity", all_in=r["all_in"], rows=len(B), deltas="norm1=%g radius=%g" % (dn, dr), **where0)
+            kw = dict(adaptive_objective="unity", scale_w=w.copy(), delta_norm1=dn, delta_radius=dr, solver="CLARABEL")
+            if not default_neutral:
+                kw["neutral_point"] = nu0.copy()
+            try:
+                X, scales, Bp = est.fit_adaptive(B.copy(), **kw)
+                n += 1
+            except Exception as ex:
+                if len(r["fgrid"]) == 0 and isinstance(ex, RuntimeError):
+                    continue
+                bad.append(("C10.no-error", dict(exc=type(ex).__name__, **wd), None, repr(ex)[:200], r))
+                continue
+            X, scales = np.asarray(X, float), np.asarray(scales, float)
+            pred = (X @ A.T + blv) @ Kmat.T
+            Bsum = B.sum(1)
+            N = nu0[None, :] / L0 * Bsum[:, None]
+            Rr = B - N
+            if np.max(np.abs(pred.sum(1) - scales[0] * Bsum)) > 1.05 * dn + 1e-6:
+                bad.append(("C10.intensity-identity", wd, (scales[0] * Bsum).tolist(), pred.sum(1).tolist(), r))
+            if np.max(np.abs(pred - scales[0] * N - scales[1] * Rr)) > 1.05 * dr + 1e-6:
+                bad.append(("C10.chroma-identity", wd, (scales[0] * N + scales[1] * Rr).tolist(), pred.tolist(), r))
     return bad, n
 
 
